@@ -576,6 +576,11 @@ def type_variants(x):
         if params:
             out.append(['function', params[:-1], ret])
             out.append(['function', [M.seq(['function', None], '?')] + params[1:], ret])
+            p0 = params[0]
+            if p0[0] == 'seq' and p0[1][0] == 'function' and p0[1][1] is not None and p0[1][2][0] == 'seq':
+                inner = p0[1]
+                out.append(['function', [['seq', ['function', inner[1], ['seq', inner[2][1], '?']], p0[2]]] + params[1:],
+                            ret])
             out.append(['function', [M.seq(['element', 'a', 'untyped', True])] + params[1:], ret])
         out.append(['function', params, M.seq(['element', 'a', 'untyped', True], '?')])
         out.append(['function', params, M.seq(['function', None], '?')])
@@ -591,7 +596,10 @@ def type_variants(x):
         fb = M.seq(['function', [ST_ITEM_STAR], A('boolean')])
         out += [['map', 'anyAtomicType', fb], ['seq', ['map', 'anyAtomicType', fb], '*'],
                 ['seq', ['map', 'date', fb], '?'], ['map', 'NCName', M.seq(['pi', 'tgt'])],
-                ['map', 'NCName', M.seq(['namespace-node'])], ['map', 'NCName', M.seq(['element', None, 'untyped', False])]]
+                ['map', 'NCName', M.seq(['namespace-node'])], ['map', 'NCName', M.seq(['element', None, 'untyped', False])],
+                ['map', 'string', M.seq(['attribute', None, None])],
+                ['map', 'anyAtomicType', M.seq(['attribute', '{urn:p}b', 'anySimpleType'])],
+                ['map', 'string', M.seq(['attribute', '{urn:p}b', 'untypedAtomic'])]]
     elif x[0] == 'r':
         out += [['array', None], ['function', None], ['map', None], ['node'], ['atomic', 'integer'],
                 ['function', [A('integer')], ST_ITEM_STAR], ['function', [A('int')], ST_ITEM_STAR],
@@ -613,7 +621,9 @@ GRID_MAPS = [['m', []], ['m', [[['a', 'string', "'a'"], [['a', 'integer', '1']]]
              ['m', [[['a', 'date', "xs:date('2000-01-01')"], [['a', 'short', 'xs:short(5)']]]]],
              ['m', [[['a', 'date', "xs:date('2000-01-01')"], [['f', [ST_ITEM_STAR], A('boolean'), 'fn:not#1']]]]],
              ['m', [[['a', 'NCName', "xs:NCName('nc')"], [['n', 'pi', 'tgt', '/r/processing-instruction()']]]]],
-             ['m', [[['a', 'NCName', "xs:NCName('nc')"], [['n', 'namespace', 'p', '/r/namespace::p']]]]]]
+             ['m', [[['a', 'NCName', "xs:NCName('nc')"], [['n', 'namespace', 'p', '/r/namespace::p']]]]],
+             ['m', [[['a', 'string', "'abc'"], [['r', []]]]]],
+             ['m', [[['a', 'string', "'abc'"], [['n', 'attribute', '{urn:p}b', '/r/@p:b']]]]]]
 GRID_ARRAYS = [['r', []], ['r', [[['a', 'integer', '1']], [['a', 'integer', '42']]]],
                ['r', [[['a', 'integer', '1'], ['a', 'integer', '0']], []]],
                ['r', [[['a', 'string', "'abc'"]], [['a', 'short', 'xs:short(5)']]]],
@@ -997,7 +1007,8 @@ def function_test_key(pre, x, it, d1):
         if e != m:
             cause = relation_cause(s, t)
             if e is True and cause == 'occurrence':
-                cause = 'occurrence/' + occ_class(s, t)
+                oc = occ_class(s, t)
+                cause = 'occurrence/' + (oc if oc != 'other' else 'nested-in-function-test')
             if e is False:
                 # all gaps of the relation w.r.t. the 3.1 subtype rules share one key (pair in the detail)
                 cause = cause.split('/')[0]
@@ -1092,7 +1103,7 @@ def classify(judgement, judge, spec, items, st, dec, model, depth=0):
         allm = M.and3(M.match_item(x, it) for x in items) is True
         reason = 'cardinality' if (allm or not items) else 'item-mismatch'
     else:
-        reason = 'empty-value' if not items else 'matching-items'
+        return pre + 'sequence/%s/%s' % (coarse_class(st), direction(dec))
     return pre + 'sequence/%s/%s/%s' % (coarse_class(st), direction(dec), reason)
 
 
